@@ -72,9 +72,21 @@ def klass(name, fields=None, inv=None, bases=None, views=None):
     return CLASSES[name]
 
 
-def fn(qual, **kw):
-    FUNCS[qual] = FnSpec(qual, **kw)
-    return FUNCS[qual]
+def fn(qual, cls=None, **kw):
+    """Contract of function `qual`; cls=... gives the contract that holds when the receiver is of that class
+    (inherited methods whose behaviour depends on dynamic dispatch)."""
+    sp = FnSpec(qual, **kw)
+    sp.cls = cls
+    FUNCS[(qual, cls)] = sp
+    return sp
+
+
+def lookup(repo, qual, dyn_cls=None):
+    if dyn_cls is not None:
+        for c in repo.mro(dyn_cls):
+            if (qual, c) in FUNCS:
+                return FUNCS[(qual, c)]
+    return FUNCS.get((qual, None))
 
 
 def class_fields(repo, clsname):
@@ -86,7 +98,7 @@ def class_fields(repo, clsname):
     return out
 
 
-def class_inv(repo, clsname, prefix=None):
+def class_inv(repo, clsname, prefix=None, exclude=None):
     """Invariant clauses of clsname: those of its bases, a named clause of a subclass replacing the base's."""
     out = []
     for c in reversed(repo.mro(clsname)):
@@ -97,4 +109,6 @@ def class_inv(repo, clsname, prefix=None):
                 out.append(cl)
     if prefix:
         out = [o for o in out if o.name and o.name.startswith(prefix)]
+    if exclude:
+        out = [o for o in out if not (o.name and o.name.startswith(exclude))]
     return out
